@@ -81,6 +81,63 @@ def env_prefix(tier, seed):
     return acc.out()
 
 
+def run_boundary(vals, latency, delay, cut, scale):
+    """daily bars with extra quotes just around t + latency (sub-second offsets included); every quote stamped after
+    grid[cut] + latency has its price multiplied by `scale`"""
+    d = datetime(2020, 1, 6, 9)
+    n = len(vals)
+    grid = [d + timedelta(days=i) for i in range(n)]
+    spy = ETF("SPY")
+    tr = Transmitter(grid)
+    limit = grid[cut] + timedelta(seconds=latency)
+    evs = []
+    offs = sorted(set([0.0, latency, latency + 0.001, latency + 0.4, latency + 0.999, latency + 1.0, latency + 30.0] + ([latency - 0.5] if latency >= 1 else [])))
+    for i, g in enumerate(grid):
+        for j, o in enumerate(offs):
+            t = g + timedelta(seconds=o)
+            p = vals[i] * (1 + 0.003 * j) * (scale if t > limit else 1.0)
+            evs.append(EventNBBO(t, spy, p * 0.999, p * 1.001))
+    tr.add_events(evs)
+    env = TradingEnv(action_space=BoxPortfolio([spy], -1, 1), transmitter=tr, latency=latency, steps_delay=delay,
+                     broker_fees=BrokerFees(proportional=0.001))
+    env.reset()
+    acts = np.random.default_rng(77).uniform(0.2, 1, n)
+    out, done, k = [], False, 0
+    while not done:
+        _, r, done, info = env.step(np.array([acts[k]]))
+        k += 1
+        rb = info.get("_rebalancing")
+        out.append((env.now(), [(str(t.contract), t.quantity, t.acq_price) for t in rb.trades] if rb else None, r))
+    return grid, out
+
+
+def latency_boundary(tier, seed):
+    acc = Acc("second clause of C02: daily bars with quotes at t+{0, L-0.5, L, L+1ms, L+0.4s, L+0.999s, L+1s, L+30s}; every quote stamped "
+              "after t_cut + L is scaled by 1.7; the trades executed in the step that follows t_cut (quantity and price) are compared with ==; "
+              "latencies {0, 0.5, 45} x delays {0,1} x every cut; non-trivial = distinct (latency, delay, cut)", "7 timesteps, 1 asset")
+    base = list(100 * np.exp(np.cumsum(np.random.default_rng(5 + seed).normal(0, .02, 7))))
+    for latency in ((0, 0.5, 45) if tier != "quick" else (0, 45)):
+        for delay in (0, 1):
+            for cut in range(0, len(base) - 1):
+                try:
+                    grid, ref = run_boundary(base, latency, delay, cut, 1.0)
+                    _, alt = run_boundary(base, latency, delay, cut, 1.7)
+                except Exception as ex:
+                    acc.fail("C02::shell::episode_runs", "c02_lookahead", {"api": "boundary", "seed": seed, "latency": latency, "delay": delay, "cut": cut},
+                             {"error": "%s: %s" % (type(ex).__name__, str(ex)[:200])})
+                    continue
+                # out[k] is the step from grid[k] to grid[k+1]: its trades are executed at grid[k] + latency
+                acc.case((latency, delay, cut), sample={"latency": latency, "delay": delay, "cut": cut, "trades": str(ref[cut][1])[:120]} if (latency, delay, cut) == (45, 0, 2) else None)
+                acc.validated += 2
+                a, b = [o[1] for o in ref[:cut + 1]], [o[1] for o in alt[:cut + 1]]
+                if a != b:
+                    i = next(i for i, (x, y) in enumerate(zip(a, b)) if x != y)
+                    acc.fail("C02::shell::trades_independent_of_data_after_t_plus_latency", "c02_lookahead",
+                             {"api": "boundary", "seed": seed, "latency": latency, "delay": delay, "cut": cut},
+                             {"step": i, "ref": str(a[i])[:200], "alt": str(b[i])[:200]})
+    return acc.out()
+
+
 def xy_gap_case(seed, transformer, window):
     """the transformer is fitted up to a date that is *not* a row of the feature table (a gap): rows after it must not matter"""
     idx = pd.bdate_range("2021-01-04", periods=40)
@@ -154,6 +211,10 @@ def rerun(inp):
     if inp["api"] == "xy_gap":
         a, b = xy_gap_case(inp["seed"], inp["transformer"], inp["window"])
         return {"reproduced": a != b}
+    if inp["api"] == "boundary":
+        res = latency_boundary("thorough", inp["seed"])
+        hit = [f for f in res["failures"] if all(f["input"].get(k) == inp.get(k) for k in ("latency", "delay", "cut"))]
+        return {"reproduced": bool(hit), "failing": [h["detail"] for h in hit[:1]]}
     if inp["api"] == "env":
         res = env_prefix("thorough", inp["seed"])
         hit = [f for f in res["failures"] if all(f["input"].get(k) == inp.get(k) for k in ("latency", "delay", "setting", "cut"))]
